@@ -138,6 +138,16 @@ Definition blake2b_rfc (nn : Z) (key msg : list Z) : list Z :=
   let h := rfc_loop h0 0 (rfc_blocks key msg) tlast in
   firstn (Z.to_nat nn) (flat_map le_bytes8 h).
 
+(* the same loop entered with block index i (i.e. with the 2w-bit counter at i*bb, as after i compressed
+   blocks); blake2b_rfc is the instance i = 0.  Used to state the behaviour of the counter beyond 2^64. *)
+Definition blake2b_rfc_from (i : Z) (nn : Z) (key msg : list Z) : list Z :=
+  let kk := Z.of_nat (length key) in
+  let ll := Z.of_nat (length msg) in
+  let h0 := vset RFC_IV 0 (Z.lxor (Z.lxor (Z.lxor (vget RFC_IV 0) 0x01010000) (Z.shiftl kk 8)) nn) in
+  let tlast := i * RFC_BB + (if kk =? 0 then ll else ll + RFC_BB) in
+  let h := rfc_loop h0 i (rfc_blocks key msg) tlast in
+  firstn (Z.to_nat nn) (flat_map le_bytes8 h).
+
 Definition is_byte (b : Z) : Prop := 0 <= b < 256.
 Definition is_byteb (b : Z) : bool := (0 <=? b) && (b <? 256).
 
